@@ -378,3 +378,41 @@ def replay_names(r):
 
 CHECKS['C18'] = c18
 REPLAYERS['names'] = replay_names
+
+
+def c12(prop, pool, verdict, tier, seed):
+    from rtc import prop_c12
+    e1 = run_e1(prop, pool, verdict, tier, seed)
+    fz = run_fuzz(prop, pool, verdict, tier, seed)
+    d = prop_c12.run(pool, tier, seed)
+    if d.get('error'):
+        verdict.errors.append(d['error'])
+        d = {'inputs': 0, 'nontrivial': 0, 'hash_seeds': 0, 'fails': [], 'samples': []}
+    for f in d['fails'][:3]:
+        rp = write_replay(prop, 'hashseed-%s' % f['input'][0], {'kind': 'hash-seed', 'property': prop, 'input': f['input'], 'values': f['values'],
+                                                               'failing_inputs_in_scope': len(d['fails'])})
+        verdict.violation(rp)
+    cov = coverage_from(e1, fz, PROVED_NOTE + 'C12: the functions whose result is a sorted list or an exact generated name (find_headers_and_entries, find_exiting_and_exits, '
+                        'NameGenerator.*) are proved against FUNCTIONAL postconditions under an encoding in which every loop over a set or dict may visit the elements in ANY order '
+                        '(ghost processed-subset, arbitrary next element) - a function proved this way returns the same value under every hash seed. The whole-pipeline claim is a '
+                        '2-safety property over processes and is bounded: canonical dumps (sensitive to names, nesting, target order, tables, dict insertion order, generator '
+                        'counters) and regenerated source compared across separate processes with different PYTHONHASHSEED.')
+    cov['evaluations'] = d['inputs'] * max(d['hash_seeds'], 1) + fz['evaluations']
+    cov['distinct_nontrivial'] = d['nontrivial']
+    cov['rule'] = ('inputs: every closed CFG with <= 3 nodes, seeded random closed CFGs of 4..12 nodes, %d source functions (graph before/after restructuring and regenerated text) and '
+                   '3 bytecode functions; each run in %d separate processes with different PYTHONHASHSEED; non-trivial = graph with a cycle or branch / any function'
+                   % (len(prop_c12.SOURCES), d['hash_seeds']))
+    cov['exhaustive'] = False
+    cov['samples'] = cov['samples'] + d['samples']
+    return 'other', cov, e1['assumptions'] + ['equality between processes is checked only for the sampled inputs and seeds; sorted() anchors inside tier-B functions are not proved']
+
+
+def replay_hashseed(r):
+    from rtc import prop_c12
+    d = prop_c12.run(None, 'quick', 0)
+    print('replay hash-seed comparison: %d inputs differ across seeds' % len(d.get('fails', [])))
+    return 1 if d.get('fails') else 0
+
+
+CHECKS['C12'] = c12
+REPLAYERS['hash-seed'] = replay_hashseed
